@@ -60,3 +60,40 @@ Proof.
   assert (Hw : w0 = match genesis_world g0 with Ok w => w | Err _ => w0 end) by (rewrite E; reflexivity).
   rewrite Hw. clear. vm_compute. repeat split; reflexivity.
 Qed.
+
+(* ---------- the excess ledger (ExcessLedger.excess_ledger) on a concrete history ---------- *)
+From MD.Proofs Require Import PmChainProofs ExcessLedger.
+
+Definition setup0 : list op := firstn 2 ops0.         (* pool creation, first deposit *)
+Definition core0 : list op :=
+  [ Tx "bob" "PM" (WPm (PmSwap "uusd" None (Some 500000000000000000) None "o.a")) [("uom", 5000001)];
+    Tx "carol" "PM" (WPm (PmProvide None (Some 500000000000000000) None "o.a" None None)) [("uusd", 80001)];
+    BankSendOp "bob" "PM" [("uusdc", 77)];
+    Tx "bob" "PM" (WPm (PmRoute [{| so_in := "uusd"; so_out := "uom"; so_pool := "o.a" |}] None None (Some 500000000000000000))) [("uusd", 3000)];
+    Tx "carol" "PM" (WPm (PmSwap "uom" None (Some 1) None "o.a")) [("uusd", 900000000)];     (* rejected: slippage *)
+    Tx "alice" "PM" (WPm (PmWithdraw "o.a")) [(lp0, 1000000)] ].
+
+Definition ledger_statement : Prop :=
+  exists w0, genesis_world g0 = Ok w0 /\
+    let w1 := run w0 setup0 in
+    good_run w1 core0 /\ asset_denom "uusd" /\ asset_denom "uusdc" /\ asset_denom "uom" /\
+    ledger w1 core0 "uusd" = 1 /\ ledger w1 core0 "uusdc" = 77 /\ ledger w1 core0 "uom" = 0 /\
+    map (fun o => snd (step w1 o)) [nth 4 core0 (SetFault 0)] <> [] .
+
+Lemma asset_denom_u s : asset_denom ("u" ++ s).
+Proof. intros id C. unfold lp_of_id in C. cbn in C. discriminate. Qed.
+
+Lemma ledger_example : ledger_statement.
+Proof.
+  unfold ledger_statement.
+  destruct (genesis_world g0) as [w0|e] eqn:E; [|vm_compute in E; discriminate].
+  exists w0. split; [reflexivity|]. cbv zeta.
+  assert (Hw : w0 = match genesis_world g0 with Ok w => w | Err _ => w0 end) by (rewrite E; reflexivity).
+  split.
+  - apply good_run_intro.
+    + apply run_lp_inv. rewrite Hw. intros id p H. vm_compute in H. discriminate.
+    + unfold core0. repeat constructor; try discriminate.
+    + rewrite Hw. clear. vm_compute. reflexivity.
+  - split; [apply (asset_denom_u "usd")|]. split; [apply (asset_denom_u "usdc")|]. split; [apply (asset_denom_u "om")|].
+    rewrite Hw. clear. vm_compute. repeat split; try reflexivity. discriminate.
+Qed.
